@@ -96,6 +96,7 @@ ObsSorted   == \A o \in C!Live : HasObs(Prev, o) => IsStrict(ObsOf(o).units, Uni
 ObsCount    == \A o \in C!Live : HasObs(Prev, o) =>
                    /\ ObsOf(o).n = Cardinality(heap[o].units)
                    /\ ObsOf(o).len = Cardinality(heap[o].ann)
+                   /\ ObsOf(o).derived.nann = Cardinality(heap[o].ann)                 \* num_annotators
                    /\ (ObsOf(o).bool = 1) = (heap[o].units # {})
 ObsCats     == \A o \in C!Live : HasObs(Prev, o) => ToSet(ObsOf(o).cats) = heap[o].cats
 ObsCatsCover == \A o \in C!Live : HasObs(Prev, o) =>
@@ -118,13 +119,15 @@ CountLabel(c, lab) == Cardinality({u \in c.units : u[4] = lab})
 MaxPer(c) == IF c.ann = {} THEN 0 ELSE Max({Cardinality(C!UnitsOf(c, a)) : a \in c.ann})
 ObsDerived == \A o \in C!Live : HasObs(Prev, o) =>
     LET d == ObsOf(o).derived c == heap[o] n == Cardinality(c.units) IN
-    /\ d.nann = Cardinality(c.ann)
     /\ d.maxper = MaxPer(c)
+    /\ (d.avgok = 1 /\ c.ann # {}) =>                                         \* avg_num_annotations_per_annotator (x 1e6)
+          LET diff == d.avgnum * Cardinality(c.ann) - n * 1000000 IN diff <= Cardinality(c.ann) /\ -diff <= Cardinality(c.ann)
     /\ d.wok # 2                                                              \* category_weights must not fail on labelled units
     /\ d.wok = 1 => /\ {d.weights[k][1] : k \in 1..Len(d.weights)} = C!LabelsInUse(c)
                     /\ \A k \in 1..Len(d.weights) :
                            LET diff == d.weights[k][2] * n - CountLabel(c, d.weights[k][1]) * 1000000
                            IN diff <= n /\ -diff <= n
+\* (ObsDerived is beyond the statements of C13 / C14: judged, reported as a NOTE)
 \* every dissimilarity (or other auxiliary input) still is exactly what it was when it was created
 ObsAux == \A k \in 1..Len(Prev.aux) : \A j \in 1..Len(aux) : aux[j][1] = Prev.aux[k][1] => aux[j][2] = Prev.aux[k][2]
 ObsDerivedWellFormed == Prev.op = "derive" /\ out = "ok" => C!WellFormed(heap[Prev.args[1]])
